@@ -280,7 +280,7 @@ def pending_of(st, name='W'):
     return [s_.parts[1][0][1].id for s_ in w.fields[F('BlobWriter', 'chunks')].items(st)]
 
 
-ART_SETS = [[], [[0]], [[0], [0]], [[0, 1]], [[0, 0]], [[0], [0, 1]]]
+ART_SETS = [[], [[0]], [[0], [0]], [[0, 1]], [[0, 0]], [[0], [0, 1]], [[0, 0], [0]]]      # the last: a chunk repeated inside one artifact AND shared with another (a clamp at zero hides over-release otherwise)
 ck.declare('R1_store_chunk_counts_the_reference', 'BlobWriter::store_chunk with content equal to a stored chunk or new, on every bounded state',
            'Ok => the chunk is stored, the writer lists it, and every stored chunk\'s count equals its number of references (artifact lists + the writer\'s list); no panic')
 ck.declare('R2_delete_artifact_releases_exactly_its_references', 'delete_artifact(id), id symbolic',
